@@ -5,3 +5,4 @@ pub mod ser;
 pub mod schema;
 pub mod introspect;
 pub mod schema_walk;
+pub mod exec;
